@@ -122,6 +122,16 @@ CLAIMED["C17"] = ("Proof: the argument splitter returns the (type, name) pairs o
     "Trusted: Coq kernel; header generator hdrgen.py (cbindgen is not installed); harness/bindgen (includes the tool's sources by path); mock driver generator + gcc; translator bindgentables.py. "
     "Not modelled: the discovery regular expressions (differential runs only); null function pointers (covered by the driver's empty-context scenario only).",
     "Coq proof over a model of the wrapper generator + text-level tie to the real tool + compiled mock-vtable runs")
+CLAIMED["C18"] = ("Proof: main.rs's argument split equals the specification (before `--`: last -c/--config and +nightly; after it: everything except each -o/--output pair; the first "
+    "output value is the target) for every argument vector whose output values are not themselves output flags, and passes nothing without `--`; the context collection "
+    "iterates in sorted order (fact re-read from the source on every run), hence the copies of context-generic structs do not depend on the process or on the order contexts are "
+    "met (and with a hashed collection two contexts suffice for two outputs); at block level foreign declarations survive unmodified and in order unless a user struct is named "
+    "like a context-generic one. Tie/monitor: generated C and C++ headers with several contexts, context-generic structs and foreign look-alike declarations through the REAL "
+    "tool in 3 fresh processes each (byte identity), gcc -std=c99 -pedantic-errors / g++ -std=c++11 acceptance, verbatim in-order search of every foreign declaration, order of "
+    "emitted copies against the block model; the REAL binary with stub cbindgen/rustup on random argument vectors against the model of the split.", "5.C18",
+    "Trusted: Coq kernel; header generator; harness/bindgen and the real binary with stub executables; gcc/g++; translator bindgentables.py. Not modelled: the regular expressions "
+    "(block-level abstraction validated by the runs), compiler acceptance (empirical), `--output=X`/`-oX` spellings (outside the documented form).",
+    "Coq proof over models of the argument split and of block-level processing + multi-process differential runs of the real tool + compiler acceptance")
 PENDING = "not yet built in this round (planned, see DESIGN.md section 5); not claimed until its theorem, tie and monitor exist"
 NA = {}
 
